@@ -350,6 +350,34 @@ fn main() {
             let p = |rng: &mut Rng| Point::new(rng.i32r(-600, 600), rng.i32r(-400, 400));
             check_triangle(ctx, [p(rng), p(rng), p(rng)]);
         });
+        // edges of several thousand pixels (beyond the 24-bit mantissa of an f32 product, beyond any
+        // display): mostly slivers along the long edge, so that the fill stays cheap (seeded `C19-13`:
+        // the scanline intersection of steep lines in closed form, evaluated in f32 - exact below 2964 px)
+        let nlong = run.tier(64u64, 3000u64);
+        run.generate("very-long-edges", nlong, false, 0.15, |ctx, idx, rng| {
+            let a = Point::new(rng.i32r(-300, 300), rng.i32r(-300, 300));
+            let major = match rng.below(4) {
+                0 => rng.i32r(2900, 3100),
+                1 => rng.i32r(4000, 4200),
+                _ => rng.i32r(2500, 6500),
+            };
+            let minor = match rng.below(4) {
+                0 => major,
+                1 => rng.i32r(0, 40),
+                _ => rng.i32r(major / 2, major),
+            };
+            let (sx, sy) = (if rng.chance(1, 2) { 1 } else { -1 }, if rng.chance(1, 2) { 1 } else { -1 });
+            let d = if idx % 3 == 0 { Point::new(major * sx, minor * sy) } else { Point::new(minor * sx, major * sy) };
+            let b = a + d;
+            let c = match rng.below(6) {
+                0 => Point::new(rng.i32r(-700, 700), rng.i32r(-700, 700)),
+                1 | 2 => Point::new(a.x + rng.i32r(-40, 40), a.y + rng.i32r(-40, 40)),
+                3 => Point::new(b.x + rng.i32r(-40, 40), b.y + rng.i32r(-40, 40)),
+                _ => Point::new(a.x + d.x / 2 + rng.i32r(-60, 60), a.y + d.y / 2 + rng.i32r(-60, 60)),
+            };
+            check_triangle(ctx, [a, b, c]);
+            ctx.count("triangles_with_an_edge_of_thousands_of_pixels", 1);
+        });
         let q = run.tier(6u64, 7u64);
         let qp = q * q;
         run.generate("shared-edge-grid", qp * qp * qp * qp, true, 0.25, |ctx, idx, _rng| {
